@@ -40,11 +40,12 @@ CONSTANTS
              \* "nonatomic" the increment is a separate read and write
              \* "short"     the counter value is truncated further, so ids repeat early
              \* "overwrite" publishImpl assigns a fresh id even if the caller supplied one
+             \* "rewind"    publishImpl moves the counter to the identifier the caller supplied
 
 ASSUME /\ M \in Nat /\ M >= 3
        /\ K \in Nat /\ K >= 1
        /\ Supplied \subseteq 1..(M - 1)
-       /\ Bug \in {"none", "nozero", "nonatomic", "short", "overwrite"}
+       /\ Bug \in {"none", "nozero", "nonatomic", "short", "overwrite", "rewind"}
 
 CM == M * K                      \* number of counter values (2^32 in the code)
 \* W == M - 1 (PacketIdArith)     \* number of usable identifiers (65535 in the code)
@@ -102,7 +103,8 @@ Request(c, s) ==
             /\ wid' = [wid EXCEPT ![c] = s]
        ELSE /\ pc'  = [pc EXCEPT ![c] = "alloc"]
             /\ wid' = wid
-  /\ UNCHANGED <<ctr, loc, age, win>>
+  /\ IF s # 0 /\ Bug = "rewind" THEN ctr' = (ctr \div M) * M + s ELSE ctr' = ctr
+  /\ UNCHANGED <<loc, age, win>>
 
 \* caller d holds (or is about to return from newID with) a library-chosen identifier
 Holding(d) == \/ pc[d] = "chk" /\ Returned(loc[d])
